@@ -10,8 +10,15 @@
 #define VCANARY() __CPROVER_assert(0, "VACUITY_CANARY")
 #define GHOST_AXIOM(c) __CPROVER_assume(c) /* fold-defining equation, DESIGN.md section 4.3 */
 #define HARNESS_ASSUME(c) __CPROVER_assume(c) /* harness input shaping only */
+/* cut lemma: first an obligation, then available to the solver as a fact (assert-then-assume of the SAME condition) */
+#define LEMMA(c)                                                                                   \
+        do {                                                                                       \
+                __CPROVER_assert(c, "LEMMA");                                                     \
+                __CPROVER_assume(c);                                                               \
+        } while (0)
 #else
 #define VCANARY() ((void) 0)
+#define LEMMA(c) ((void) 0)
 #endif
 
 #endif
